@@ -54,3 +54,10 @@ Theorem C20_xdoctest_accepts_more :
   std_ellipsis_match [97;32;46;46;46;32;98]%N [97;120;98]%N = false.
 Proof. exact xdoctest_accepts_more. Qed.
 Print Assumptions C20_xdoctest_accepts_more.
+
+(* ... but the whole comparison is not: finding F6f -- the standard matcher accepts the got b'abc' for the want b... , xdoctest's
+   check_output (default state, ELLIPSIS on) removes the string-prefix letter from the got only and rejects *)
+Theorem C20_compat_refuted_F6f :
+  std_ellipsis_match f6f_want f6f_got = true /\ check_output default_flags f6f_got f6f_want = false.
+Proof. exact compat_refuted_F6f. Qed.
+Print Assumptions C20_compat_refuted_F6f.
